@@ -345,6 +345,49 @@ def eof_observed(rep, lib):
     return r
 
 
+def delimited_token(rep, lib):
+    """A `/name/` reference that is cut before its closing slash is a parse error."""
+    r = rep.rule("C18-DELIMITED-TOKEN", "parse_get_selection: when the option text ends before the closing `/` of a "
+                 "`/name/` reference (right after the opening slash, or after some characters of the name) the parser "
+                 "returns an error - the end of the text never stands in for the delimiter", floor=2,
+                 analysis="A5 partial evaluation of parse_get_selection on scripted byte sequences")
+    b = lib.bodies.get("selection_extractor::parse_get_selection")
+    if b is None:
+        r.missing("selection_extractor::parse_get_selection")
+        return r
+    SL = 0x2F
+    for label, script in (("/<end>", [SL]), ("/ab<end>", [SL, 0x61, 0x62])):
+        st = {"pos": 0}
+
+        def cur():
+            return script[st["pos"]] if st["pos"] < len(script) else None
+
+        def model(c, av, envv, pe):
+            if is_reader_peek(c):
+                v = cur()
+                return (True, OK(some(("i", v)) if v is not None else NONE))
+            if is_reader_next(c):
+                # Reader::next moves to the following byte and answers it
+                st["pos"] += 1
+                v = cur()
+                return (True, OK(some(("i", v)) if v is not None else NONE))
+            return None
+        try:
+            res = PE(b, model, eq_ok=common.derived_eq_ok(lib), crate=lib).run()
+        except RuntimeError as e:
+            r.bad("parse_get_selection[%s]" % label, "not evaluated: %s" % e, b.where())
+            continue
+        key = "parse_get_selection[%s]" % label
+        if res.forks or not res.returns:
+            r.bad(key, "the outcome is not determined by the bytes read (unrecognised idiom)", b.where())
+        elif all(v is not None and v[0] == "adt" and v[1] == 1 for _, v in res.returns):
+            r.ok(key, "rejected", b.where())
+        else:
+            r.bad(key, "a reference whose closing `/` is missing is accepted: a truncated expression passes the "
+                  "configuration check", b.where())
+    return r
+
+
 # ------------------------------------------------------------------ (c) inspect before consume (typestate)
 
 class Inspect:
@@ -700,6 +743,7 @@ def run(ctx, rep):
     arity_use(rep, ctx)
     extract_truncated(rep, ctx)
     eof_observed(rep, lib)
+    delimited_token(rep, lib)
     style_options(rep, lib)
     # header-less csv: error before any write (shared with C15)
     PR.text_rows(rep, lib)
